@@ -410,6 +410,7 @@ class XBuffer(ABC):
     def allocate(self, size, align=True):
         # find available free slot
         # and update free slot if exists
+        size = int(size)  # a narrow numpy integer must not wrap the offsets
         if align:
             alignment = self.default_alignment
         else:
@@ -440,7 +441,7 @@ class XBuffer(ABC):
         Add capacity to buffer
         """
         oldcapacity = self.capacity
-        newcapacity = self.capacity + capacity
+        newcapacity = self.capacity + int(capacity)
         newbuff = self._new_buffer(newcapacity)
         self.copy_to_native(
             dest=newbuff, dest_offset=0, source_offset=0, nbytes=oldcapacity
@@ -454,7 +455,7 @@ class XBuffer(ABC):
         self.capacity = newcapacity
 
     def free(self, offset, size):
-        nch = Chunk(offset, offset + size)
+        nch = Chunk(int(offset), int(offset) + int(size))
         # insert sorted
         if (
             len(self.chunks) == 0 or offset > self.chunks[-1].start
